@@ -45,6 +45,7 @@ func concBatch(base uint64, from, to int, tier string, st *SiteTable, logHashes 
 		if out.OverBudget {
 			sum.OverBudget++
 		}
+		sum.Probes["mismatches_attributed_to_pure_engine_divergence"] += int64(out.Diverged)
 		sum.Policies[sc.PolicyNm]++
 		sum.Strategies[out.Strategy]++
 		for _, ops := range sc.Workers {
